@@ -152,7 +152,17 @@ Proof.
                        else validate_outage_b (p_groups (u_rules u)) (b_ans b)) in *.
     rewrite Hgs, Hfs.
     apply andb_true_iff. split.
-    + apply andb_true_iff. split.
+    + apply andb_true_iff. split; [|
+        (* refused => cleared *)
+        destruct (served rs) eqn:Es; [reflexivity|]; cbn [orb];
+        assert (Hnw: whitelisted u (breq st) = false) by (unfold whitelisted; cbn; rewrite andb_false_r; reflexivity);
+        assert (Hrs: rs = proxy_handle lower now c u (breq st) (b_ans b)) by reflexivity;
+        rewrite Hrs in Es |- *; unfold served, proxy_handle in Es |- *; rewrite Hnw in Es |- *;
+        cbn [r_host breq] in Es |- *; rewrite Hb in Es |- *; cbn [r_cookie r_host] in Es |- *;
+        destruct (ao_err (authenticate lower now c u host (Sealed s) (b_ans b))) as [e|] eqn:Ee;
+        [ pose proof (authenticate_error_clears lower _ _ _ _ _ _ _ Ee) as [Hc _]; cbn [rs_cookie]; rewrite Hc; reflexivity
+        | cbn in Es; discriminate ] ].
+      apply andb_true_iff. split.
       * destruct (grace_served rs) eqn:Eg; [|reflexivity]. cbn [negb orb].
         destruct (Hbound eq_refl) as [Ho [Hg Hl]]. rewrite Ho. cbn [andb]. lia.
       * destruct (served rs) eqn:Es; [apply orb_true_r|]. rewrite orb_false_r. apply negb_true_iff.
